@@ -75,8 +75,12 @@ func write(md *memoryDatabase, buf []byte, memTimeSeries uint32, fieldIndex uint
 		oldValue := encoding.BytesToFloat64(buf[pos : pos+8])
 		value = fieldType.AggType().Aggregate(oldValue, value)
 	} else {
-		// new data for time slot
-		buf[endOffset] = byte(delta)
+		// new data for time slot.
+		// NOTE: only move end offset forward, the slot maybe is before the last slot(out of order write in window),
+		// else the slots after it are invisible and lost when flush.
+		if byte(delta) > buf[endOffset] {
+			buf[endOffset] = byte(delta)
+		}
 		buf[markOffset+markIdx] |= flagIdx // mark value exist
 	}
 	// finally, write value into the body of current write buffer
